@@ -61,6 +61,10 @@ CLAIMS = {
    text="Typed-mutation grammar fuzzing of the connection handler (every JSON type at every position of commands, events and filters; dropped/duplicated/reordered elements; invalid JSON; 1e5-deep nesting; 1 MB strings; impatient REQ/CLOSE bursts; rate limiting and auth on/off) with probes on the hostile connection and on a bystander: no exception escapes, kept-open connections still answer, bystanders unaffected, after disconnect no subscriptions/tasks/locks are left.",
    note="Virtual clock (throttling only advances time); any relay-initiated close counts as clean handling.",
    tech="grammar-based fuzzing (Hypothesis) with liveness probes and resource-leak oracle"),
+ "C03": dict(cat="exploration",
+   text="Valid signed events (all kind classes, with/without a real NIP-26 delegation) corrupted by 1-3 mutations from a 30-entry typed catalogue (forged/transplanted/upper-case ids, signature and pubkey corruption, content/kind/timestamp/tag changes under the old id, type confusion, extra/missing keys, delegation arity/forgery/transplant/conditions) on the websocket and direct admission paths of both backends with a watcher; plus add_service_event. An independent verifier decides: everything stored or pushed must be authentic and equal the submission, refused events leave no trace, authentic events are accepted.",
+   note="Harness canonical serializer cross-checked against aionostr on unmutated events; the three known renderings of control characters all count as 'the hash'.",
+   tech="property-based testing: typed mutation catalogue + independent verifier oracle (BIP-340 via coincurve)"),
 }
 NA_REASON = "check under construction in this session; will be claimed when it is quiet and sensitive"
 
